@@ -49,7 +49,7 @@ MANIFEST = {
 
 FLOW_KINDS = ["region_cap", "seed", "eq", "uploader_temp", "asset_plain", "asset_wrapper", "proxy_only", "login", "unknown", "bridge"]
 HOOK_BEHAVIOURS = ["raise", "take_never", "take_release_later", "take_release_twice", "take_twice", "inject_response", "rewrite_url",
-                   "set_metadata", "take_close_session_release", "return_true", "set_cap_data"]
+                   "set_metadata", "take_close_session_release", "return_true", "set_cap_data", "own_and_release_now", "set_owner_only"]
 POINTS = [("hook", i, stage) for i in range(3) for stage in ("request", "response")] + \
          [("session_sub",), ("region_sub",), ("logger",), ("malformed_body",)]
 
@@ -73,6 +73,19 @@ class Addon:
             raise RuntimeError("addon %d fails in %s hook" % (self.idx, stage))
         if b == "return_true":
             return True
+        if b == "own_and_release_now":
+            # ownership taken and given back inside the hook itself: that release is the one hand-back
+            flow.take()
+            flow.resume()
+            run.counts["taken"] += 1
+            return None
+        if b == "set_owner_only":
+            # an addon attributes a URL that is no capability to a session and region (owner known, no cap name)
+            if stage == "request":
+                other = run.w.sessions[1]
+                flow.cap_data = CapData(region=weakref.ref(other.regions[0]), session=weakref.ref(other))
+                run.expect_owner = (str(other.id), str(other.regions[0].circuit_addr))
+            return None
         if b.startswith("take"):
             flow.take()
             run.taken.append(flow)
@@ -138,6 +151,7 @@ class Run:
         self.errors = []
         self.expect_url_suffix = None
         self.expect_cap = None
+        self.expect_owner = None
         self.target_id = None
         self.addons = [Addon(i, self) for i in range(3)]
         self.logger = Logger(self)
@@ -154,6 +168,22 @@ class Run:
             self.w.sm.sessions.remove(pend)
             self.w.sm.sessions.insert(program.get("pending_at", 0) % (len(self.w.sm.sessions) + 1), pend)
         if program.get("stale_waiter"):
+            if program["stale_waiter"] == "two_names":
+                # ... or waited (taking) for whichever of several capabilities answers first, got one, and is finished
+                names = ("WaiterCap", "FetchInventory2", "Seed", "EventQueueGet", "UploadBakedTextureUploader", "GetTextureProxyWrapper",
+                         "HippoOnly", "FirestormBridge")
+                fut = self.sess.http_message_handler.wait_for(names, take=True)
+                self.region.register_cap("WaiterCap", "https://sim-0-1.example.com:12043/cap/waitercap", CapType.NORMAL)
+                f = self.w.make_flow("GET", "https://sim-0-1.example.com:12043/cap/waitercap")
+                items, _ = self.w.pump("request", f.get_state())
+                f2 = HTTPFlow.from_state(items[0][2])
+                f2.response = tutils.tresp(status_code=200, content=b"<llsd><undef /></llsd>")
+                self.w.pump("response", f2.get_state())
+                if fut.done() and not fut.cancelled() and fut.exception() is None:
+                    fut.result().resume()
+                else:
+                    self.errors.append(("harness:waiter-not-served", "the two-name waiter did not get its flow"))
+                return
             # somebody waited (taking) for a response on this session with a time limit, gave up early, and the time limit has long passed
             loop = ensure_loop()
 
@@ -363,12 +393,19 @@ def run_program(program):
                 got_cap = (ser2.cap_name, ser2.session_id, ser2.region_addr) if ser2 else None
                 if got_cap != run.expect_cap:
                     out.append(("state:reattribution-lost", "flow re-attributed to %r in the main process came back as %r" % (run.expect_cap, got_cap)))
+            if run.expect_owner is not None and run.expect_cap is None and kind != "login":
+                ser2 = back.metadata.get("cap_data_ser")
+                got_o = (ser2.session_id, ser2.region_addr) if ser2 else None
+                if got_o != run.expect_owner:
+                    out.append(("state:owner-lost:%s" % stage, "flow attributed by an addon to session / region %r came back from the %s event as %r" % (
+                        run.expect_owner, stage, got_o)))
             if behaviour == "inject_response" and kind != "asset_wrapper" and (back.response is None or back.response.status_code != 418 or not back.metadata.get("response_injected")):
                 out.append(("state:injected-response-lost", "addon's injected response did not survive (%r, injected=%r)" % (
                     back.response and back.response.status_code, back.metadata.get("response_injected"))))
             if behaviour == "set_metadata" and (back.metadata.get("can_stream") is not False or back.metadata.get("addon_note") is None):
                 out.append(("state:metadata-lost", "metadata set by the addon did not survive"))
             if kind in ("region_cap", "seed", "eq", "uploader_temp", "asset_wrapper", "proxy_only") and run.expect_cap is None and run.sess is not None \
+                    and run.expect_owner is None \
                     and behaviour != "take_close_session_release":
                 # what the main process will see when the flow comes in again: the very session and region it belonged to
                 hf = HippoHTTPFlow.from_state(copy.deepcopy(state), w.sm)
@@ -396,7 +433,7 @@ def run_program(program):
             got = ser.cap_name if ser else None
             if kind == "login" and program["faults"]:
                 want = got        # login sniffing looks at URL and body, which the deviating behaviours may have changed
-            if stage == "request" and got != want and not (kind == "uploader_temp" and stage == "response"):
+            if stage == "request" and got != want and run.expect_owner is None and not (kind == "uploader_temp" and stage == "response"):
                 out.append(("state:cap-name", "%s flow came back attributed to %r (expected %r)" % (kind, got, want)))
             if out:
                 break
@@ -542,6 +579,7 @@ def single_programs():
         yield {"kind": kind, "faults": []}
         yield {"kind": kind, "faults": [], "stale_waiter": True}
         yield {"kind": kind, "faults": [], "stale_waiter": "subscribe_async"}
+        yield {"kind": kind, "faults": [], "stale_waiter": "two_names"}
         for point in POINTS:
             behaviours = HOOK_BEHAVIOURS if point[0] == "hook" else ["raise"]
             for b in behaviours:
@@ -564,7 +602,7 @@ PROGRAM = st.fixed_dictionaries({
     "faults": st.lists(st.tuples(st.sampled_from(POINTS).map(list), st.sampled_from(HOOK_BEHAVIOURS)), max_size=3, unique_by=lambda t: tuple(t[0])).map(
         lambda l: [[p, (b if p[0] == "hook" else "raise")] for p, b in l]),
     "later": st.integers(0, 3), "status": st.sampled_from([200, 200, 404, 499]), "request_injected": st.booleans(), "from_browser": st.booleans(),
-    "logger": st.booleans(), "stale_waiter": st.integers(0, 11).map(lambda i: {0: True, 1: "subscribe_async"}.get(i, False)), "pending_at": st.integers(0, 2),
+    "logger": st.booleans(), "stale_waiter": st.integers(0, 11).map(lambda i: {0: True, 1: "subscribe_async", 2: "two_names"}.get(i, False)), "pending_at": st.integers(0, 2),
 })
 
 
